@@ -15,7 +15,7 @@ from ..tlc import MachineryError
 from ..util import pmap, quiet, split
 
 
-def build(sc, nested):
+def build(sc, nested, late_edge=False):
     import openmdao.api as om
     n = sc['n']
     # the option is declared after Group.__init__ consumed its kwargs, so it is set on the instance
@@ -41,7 +41,7 @@ def build(sc, nested):
         else:
             expr = 'y = 1.0 + 0.0*z'
         g.add_subsystem('c%d' % c, om.ExecComp(expr, y=0.0))
-    for (a, b) in edges:
+    for (a, b) in (edges[:-1] if late_edge else edges):
         g.connect('c%d.y' % a, 'c%d.a%d' % (b, a))
     return p, g
 
@@ -51,9 +51,21 @@ def _worker(chunk):
     out = []
     for sc, nested in chunk:
         try:
-            p, g = build(sc, 'parent' if nested in ('parent', 'resetup') else nested)
+            late = nested == 'reconnect' and len(sc['edges']) > 0
+            p, g = build(sc, 'parent' if nested in ('parent', 'resetup', 'reconnect') else nested, late_edge=late)
             p.setup()
             p.final_setup()
+            if nested == 'reconnect':
+                # the last connection is made after a first setup (and run): the second setup must order by the new graph
+                if late:
+                    try:
+                        p.run_model()
+                    except Exception:
+                        pass
+                    a, b = [tuple(e) for e in sc['edges']][-1]
+                    g.connect('c%d.y' % a, 'c%d.a%d' % (b, a))
+                p.setup()
+                p.final_setup()
             if nested == 'resetup':
                 # a second setup of the same Problem (after a run) must order the subsystems again
                 if sc['acyclic']:
@@ -91,7 +103,7 @@ def run(ctx):
         scen += big[:6000]
     for s in scen:
         s['edges'] = sorted(tuple(e) for e in s['edges'])
-    jobs = [(s, nested) for s in scen for nested in (False, True, 'parent', 'resetup')]
+    jobs = [(s, nested) for s in scen for nested in (False, True, 'parent', 'resetup', 'reconnect')]
     chunks = [c for c in split(jobs, 64) if c]
     res = [x for rs in pmap(_worker, chunks) for x in rs]
     # re-assemble in job order (split() is strided)
@@ -130,6 +142,6 @@ def run(ctx):
     for s in scen[100:400:140]:
         ctx.sample({'n': s['n'], 'edges': s['edges'], 'declared': s['decl'], 'acyclic': s['acyclic'], 'one_pass_outputs': s['y']})
     ctx.rule = ('every digraph on %d subsystems x every declared order (TLC), each built flat, nested one level with '
-                'auto_order=True, nested below an auto_order parent that is itself in order, and set up a second time after a run%s; non-trivial = distinct (graph with at least one edge, non-identity declared order, nesting) cases'
+                'auto_order=True, nested below an auto_order parent that is itself in order, set up a second time after a run, and set up again after the last connection was added%s; non-trivial = distinct (graph with at least one edge, non-identity declared order, nesting) cases'
                 % (3, '' if quick else ' plus a seeded sample of 6000 of the 98304 four-node cases'))
     ctx.assumptions = ['scalar ExecComp subsystems; run-once solvers (the default)', 'no MPI']
